@@ -498,6 +498,21 @@ def run(chk):
             chk.ob("C06-D6.precision", f.key, "precision(17) before doubles are written", bool(prec), f.where)
     chk.floor("C06-D6.precision", nprec, 6, "ascii writers with floating point fields")
 
+    # ------------------------------------------------------------------ D10 members stored under one emptiness test are set together
+    chk.rule("C06-D10.group", "the writer of the Global and Fourier grids stores the updated tensors, their active tensors and weights under the emptiness test of one member: every method that sets "
+                              "that member returns with the other two set as well, otherwise the grid writes a section that its reader rejects (the return obligations of C14-D12)")
+    from tsg.report import Check
+    from rules import c14
+    sub = Check("C14", chk.tier, chk.seed)
+    c14.run(sub)
+    chk.absorb(sub)
+    ng = 0
+    for o in sub.obls:
+        if o["rule"] == "C14-D12.group" and "stored together" in o["construct"]:
+            ng += 1
+            chk.ob("C06-D10.group", o["function"], o["construct"], o["ok"], o["where"], o["detail"], o["expected"])
+    chk.floor("C06-D10.group", ng, 4, "methods that set the member tested by the writer")
+
     return ("Static rule discharge: every writer/reader pair (5 grid classes, index/storage sets, custom tabulated rule, both kinds of construction data, the addon sample storage) "
             "is linearised into a nested token sequence of (element type, data member) per i/o mode, template-constant branches folded, and the two sequences compared item by item; "
             "member coverage, enum codecs, top-level section tags and the unconditional rebuild of derived state are checked on the AST. Byte equality of a second write and the "
